@@ -18,12 +18,39 @@ from vlib import tlc, mc, cxx, try_cxx, run_harness, write_ndjson
 PRIM = {8: "uint8", 16: "uint16", 32: "uint32", 64: "uint64"}
 
 
+_LEX = {}
+
+
+def index_lexemes():
+    """w -> the spelling of every choice index in the test schema, as BitSet.tla IndexLexeme gives it
+    (one tiny TLC evaluation per width, remembered for the run)"""
+    if _LEX:
+        return _LEX
+    wd = vlib.ensure_dir(os.path.join(vlib.WORK, "c15-lex"))
+
+    def one(w):
+        d = os.path.join(wd, "w%d" % w)
+        mc(d, "MC_BitSetLex", "BitSet", "StartsDef == {{}}\nASSUME EmitLexemes\n",
+           "CONSTANT W = %d\nCONSTANT Starts <- StartsDef\nINIT Init\nNEXT Next\nCONSTRAINT LexStop\n" % w)
+        vlib.write(os.path.join(d, "MC_BitSetLex.tla"),
+                   vlib.read(os.path.join(d, "MC_BitSetLex.tla")).replace("====", "LexStop == TLCGet(\"level\") < 2\n===="))
+        r = tlc("MC_BitSetLex", cwd=d, workers=1, xmx="1g", timeout=120)
+        recs = [x for x in r.records if x.get("kind") == "lex" and x["w"] == w]
+        if not recs or len(recs[0]["lex"]) != w:
+            raise vlib.InfraError("BitSet.tla gave no index lexemes for width %d:\n%s" % (w, r.raw[-800:]))
+        return w, recs[0]["lex"]
+    for w, lex in vlib.parallel([8, 16, 32, 64], one):
+        _LEX[w] = lex
+    return _LEX
+
+
 def c15_schema():
     types = [{"kind": "composite", "name": "messageHeader", "elements": [
         {"kind": "type", "name": n, "prim": "uint16"} for n in ("blockLength", "templateId", "schemaId", "version")]}]
+    lex = index_lexemes()
     for w in (8, 16, 32, 64):
         types.append({"kind": "set", "name": "s%d" % w, "enc": PRIM[w],
-                      "choices": [{"name": "c%d" % i, "index": i} for i in range(w)]})
+                      "choices": [{"name": "c%d" % i, "index": lex[w][i]} for i in range(w)]})
     msg = {"name": "m", "id": 1, "fields": [{"name": "f%d" % w, "id": w, "type": "s%d" % w} for w in (8, 16, 32, 64)],
            "groups": [], "data": []}
     return {"package": "c15", "id": 1, "version": 0, "byteOrder": "littleEndian", "types": types, "messages": [msg]}
@@ -124,6 +151,8 @@ def run(v, tier, seed):
         # EmitState is a CONSTRAINT: evaluated once per generated state; keep distinct pre-states
         seen = set()
         for rec in r.records:
+            if rec.get("kind") == "lex":      # the constant-level EmitLexemes is evaluated at start-up of every run
+                continue
             k = (rec["w"], tuple(rec["val"]))
             if k not in seen:
                 seen.add(k)
